@@ -175,7 +175,7 @@ class World:
             if out > 1e-10 * max(float(np.abs(m).max()), 1e-300):
                 raise V({"C06"} | props, "C06.operator.charge", f"{handle}: operator has matrix elements ({out:.2e}) that do not change the charge by its declared total {qntot.tolist()} (op {self.cur_op})", handle=handle)
 
-    def check_isometries(self, handle, props, direction, sites):
+    def check_isometries(self, handle, props, direction, sites, tol=ISO_TOL):
         e = self.h[handle]
         for i in sites:
             a = np.asarray(e.obj[i].array)
@@ -194,8 +194,8 @@ class World:
                 d = d[keep]
                 g = g / np.sqrt(np.outer(d, d))
             dev = float(np.abs(g - np.eye(g.shape[0])).max()) if g.size else 0.0
-            self.stats.ratio("C04.isometry", dev, ISO_TOL)
-            if dev > ISO_TOL:
+            self.stats.ratio("C04.isometry", dev, tol)
+            if dev > tol:
                 raise V(props, "C04.isometry", f"{handle} ({e.kind}) site {i} is not a {direction}-isometry after {self.cur_op}: max dev {dev:.2e}", handle=handle)
 
     # ------------------------------------------------------------ execution
@@ -219,6 +219,8 @@ class World:
             for hname in self.changed:
                 if hname in self.h:
                     self.h[hname].meta.pop("symbolic", None)
+                    if op in ("scale", "alias_mutate"):
+                        self.h[hname].meta.pop("hermitian", None)  # a complex/negative factor changes what the operator is
         # --- whole-population invariants
         for hname in list(self.created) + list(self.changed):
             if hname in self.h:
@@ -285,7 +287,7 @@ def op_mpo(w, s):
     if not np.array_equal(rng_before, np.random.get_state()[1]):
         raise V({"C01"}, "C01.mpo.consumes_rng", "Mpo construction drew from the global numpy random stream")
     w.put(s["out"], "mpo", mpo, ref, s["mid"], {"terms": s["terms"], "offset": offset, "symbolic": True})
-    w.check_value(s["out"], {"C01"}, "C01.mpo.dense", what=f"Mpo(algo={s.get('algo', 'qr')})")
+    w.check_value(s["out"], {"C01"}, "C01.mpo.dense", what=f"Mpo(algo={s.get('algo', 'qr')})", extra_scale=float(sum(abs(t.factor) for t in terms)) + abs(offset))
     w.xdigest.add("mpo", [np.asarray(mpo[i].array) for i in range(len(mpo))][0].shape, *[np.asarray(mpo[i].array) for i in range(len(mpo))])
     if np.abs(ref).max() > 0 and np.allclose(ref, ref.conj().T) and not np.allclose(dense.dense_of(mpo), dense.dense_of(mpo).conj().T, atol=1e-9 * np.abs(ref).max()):
         raise V({"C01"}, "C01.mpo.hermiticity", "Hermitian term list gave a non-Hermitian MPO")
@@ -612,11 +614,14 @@ def op_ensure(w, s):
         raise V({"C04"}, "C04.ensure.raised", f"ensure_{s['side']}_canonical: {type(ex).__name__}: {ex}", sig=f"C04.ensure.raised:{type(ex).__name__}")
     w.check_value(s["a"], {"C04"}, "C04.ensure.dense", what=f"ensure_{s['side']}")
     n = len(obj)
+    # ensure_* is documented to accept what check_*_canonical accepts (backend.canonical_rtol = 1e-5 on the diagonal of
+    # the Gram matrix, canonical_atol = 1e-8 off it): an input inside that tolerance is legitimately left untouched
+    etol = 1.1 * backend.canonical_rtol + backend.canonical_atol
     if s["side"] == "L":
-        w.check_isometries(s["a"], {"C04"}, "L", range(0, n - 1))
+        w.check_isometries(s["a"], {"C04"}, "L", range(0, n - 1), tol=etol)
         ok = obj.qnidx == n - 1 and not obj.to_right
     else:
-        w.check_isometries(s["a"], {"C04"}, "R", range(1, n))
+        w.check_isometries(s["a"], {"C04"}, "R", range(1, n), tol=etol)
         ok = obj.qnidx == 0 and obj.to_right
     if not ok:
         raise V({"C04"}, "C04.ensure.centre", f"after ensure_{s['side']}: centre {obj.qnidx}, to_right {obj.to_right}")
